@@ -95,6 +95,7 @@ fn alphabet(focus: Focus, sh: &Shape, max_subs: usize) -> Vec<OOp> {
                     a.push(OOp::Guard(0, vec![GOp::Set(B), GOp::TryOthers]));
                     a.push(OOp::Guard(0, vec![GOp::SetIfNotEq(A), GOp::UpdateIf(C, true, false), GOp::SetIfHashNotEq(A)]));
                     a.push(OOp::ReadGuard(0));
+                    a.push(OOp::TryGuards(0, C));
                 }
                 if sh.subs < max_subs {
                     a.push(OOp::Subscribe(0));
@@ -236,14 +237,15 @@ pub fn gen_obs_history(rng: &mut Rng, shared: bool, min: usize, max: usize) -> O
                 _ => OOp::PollNextRef(s),
             }
         } else if r < 75 {
-            match rng.below(7) {
+            match rng.below(8) {
                 0 => OOp::NextNow(s),
                 1 => OOp::NextRefNow(s),
                 2 => OOp::SGet(s),
                 3 => OOp::SRead(s),
                 4 => OOp::Reset(s),
                 5 => OOp::Get(h),
-                _ => OOp::Read(h),
+                6 => OOp::Read(h),
+                _ => OOp::TryGuards(h, v),
             }
         } else if r < 88 {
             match rng.below(6) {
